@@ -105,6 +105,20 @@ def run(ctx):
                                 key[1].split('.')[-1], dec, e['want']),
                             witness=dom.path_to(node, st) if (node.id, st.key()) in dom.pred else None))
 
+    badd = None
+    nd = 0
+    for n, s in dom.exits:
+        if s.extra.get('discard_requested'):
+            nd += 1
+            if dom.n(s, SAVE):
+                badd = badd or (n, s)
+    cd.instance('after a discard request nothing is saved (%d exits)' % nd, roles.discard.qualname, badd is None and nd > 0)
+    if badd:
+        n, s = badd
+        res.add(Finding('C05', 'C05.d', 'R-DOM', roles.discard.file, roles.discard.qualname, roles.discard.node.lineno, 'discard request not honoured',
+                        'discard_recording() was called on the active recording but the scope still saves it', witness=dom.path_to(n, s),
+                        exit=rm.exit_kind(n)))
+
     # ------------------------------------------------------------------ C05.e
     ce = res.clause('C05.e', 'R-MUSTPASS', 'incomplete flag stored and metadata attached before every save', floor=1)
     inc_const = roles.cls.lookup_const('INCOMPLETE_RECORDING')
